@@ -86,6 +86,10 @@ def main(argv=None):
             viol.append((fp, rec))
         else:
             seen_known[k] += tot["fail_n"][fp]
+    os.makedirs(os.path.join(VERIF, ".run"), exist_ok=True)
+    with open(os.path.join(VERIF, ".run", f"unlisted-{prop}.jsonl"), "a") as f:
+        for fp, rec in viol:
+            f.write(json.dumps(dict(fingerprint=fp, count=tot["fail_n"][fp], seed=a.seed, tier=tier, **rec), default=str) + "\n")
     if a.census:
         with open(os.path.join(VERIF, ".run", f"census-{prop}.txt"), "w") as f:
             for fp, rec in sorted(tot["fail_keep"].items(), key=lambda x: -tot["fail_n"][x[0]]):
